@@ -7,6 +7,7 @@ package interp
 
 import (
 	"fmt"
+	"unsafe"
 	"go/token"
 	"go/types"
 	"strings"
@@ -1011,5 +1012,20 @@ func init() {
 		buf := args[0].([]value)
 		fill(buf)
 		return tuple{len(buf), iface{}}
+	}
+}
+
+func init() {
+	// slices.overlaps uses unsafe pointer arithmetic: decide it on the boxed representation
+	externals["slices.overlaps"] = func(fr *frame, args []value) value {
+		a, _ := args[0].([]value)
+		b, _ := args[1].([]value)
+		if len(a) == 0 || len(b) == 0 {
+			return false
+		}
+		// two host slices overlap iff some element address coincides
+		a0, a1 := uintptr(unsafe.Pointer(&a[0])), uintptr(unsafe.Pointer(&a[len(a)-1]))
+		b0, b1 := uintptr(unsafe.Pointer(&b[0])), uintptr(unsafe.Pointer(&b[len(b)-1]))
+		return a0 <= b1 && b0 <= a1
 	}
 }
